@@ -236,6 +236,52 @@ func DeriveOne(db *sqlgen.DB, s Step, pool Pool) error {
 	return err
 }
 
+// MatcherAsksTester probes the tree under test for C10-fix-2 by calling the batch function directly (no
+// timing involved): on a table whose only row has a NULL blob, the queries data = []byte{} and {} (everything)
+// are handed to batch.Func.Many together.  The unrepaired matcher hands the NULL row to the first query too
+// (MakeHashable turns a nil and an empty slice into the same string); the repaired function does not.
+func MatcherAsksTester() (bool, error) {
+	env, err := NewEnv(Handle{}, map[string][][]driver.Value{"items": {{int64(1), int64(1), int64(0), "a", nil, nil, float64(0)}}})
+	if err != nil {
+		return false, err
+	}
+	defer env.Close()
+	bf := BatchFunc(env.DB)
+	if bf == nil {
+		return false, fmt.Errorf("sqlgen.DB has no batchFetch field")
+	}
+	t := TableByName("items")
+	q0, err := env.DB.Schema.MakeSelect(t.NewResultSlice(), sqlgen.Filter{"data": []byte{}}, nil)
+	if err != nil {
+		return false, err
+	}
+	q1, err := env.DB.Schema.MakeSelect(t.NewResultSlice(), sqlgen.Filter{}, nil)
+	if err != nil {
+		return false, err
+	}
+	var res []interface{}
+	e, p := Safely(func() error {
+		var err error
+		res, err = bf.Many(context.Background(), []interface{}{q0, q1})
+		return err
+	})
+	if p != "" {
+		return false, fmt.Errorf("batch function panicked: %s", p)
+	}
+	if e != nil {
+		return false, e
+	}
+	if len(res) != 2 {
+		return false, fmt.Errorf("batch function answered %d results for 2 queries", len(res))
+	}
+	all, ok1 := res[1].([]interface{})
+	first, ok0 := res[0].([]interface{})
+	if !ok0 || !ok1 || len(all) != 1 {
+		return false, fmt.Errorf("batch function: unexpected results %v", res)
+	}
+	return len(first) == 0, nil
+}
+
 // Env is one fake server with the catalogue and a restricted sqlgen handle.
 type Env struct {
 	Srv  *fakesql.Server
